@@ -1,4 +1,4 @@
-(* C07: Askaryan pulses obey their scaling laws and fail gracefully.  Statements only.
+(* [zero_energy] [inv_distance] C07: Askaryan pulses obey their scaling laws and fail gracefully.  Statements only.
    ZHS_* / AVZ_* / ARZ_* / ARZAskaryanSignal_* are GENERATED from pyrex/askaryan.py on every run
    (Gen/Gen_askaryan.v); zhs_values / avz_values / arz_values / shower_signal (Model/AskaryanModel.v,
    Model/AskaryanIndex.v) are the hand model of what surrounds the formulas (transforms as real
@@ -10,7 +10,7 @@ From Coquelicot Require Import Coquelicot.
 From PyrexLib Require Import RealPrims.
 From PyrexGen Require Import Gen_askaryan.
 From PyrexModel Require Import AskaryanIndex AskaryanModel.
-From PyrexProofs Require Import C07_index C07_lists C07_formulas C07_finite C07_zhs_avz C07_arz C07_main.
+From PyrexProofs Require Import C07_index C07_lists C07_formulas C07_finite C07_zhs_avz C07_arz C07_zhs_peak C07_arz_shift C07_main.
 Import ListNotations.
 Open Scope R_scope.
 
@@ -26,13 +26,15 @@ From Coquelicot Require Import Coquelicot.
 From PyrexLib Require Import RealPrims.
 From PyrexGen Require Import Gen_askaryan.
 From PyrexModel Require Import AskaryanIndex AskaryanModel.
-From PyrexProofs Require Import C07_index C07_lists C07_formulas C07_finite C07_zhs_avz C07_arz C07_main.
+From PyrexProofs Require Import C07_index C07_lists C07_formulas C07_finite C07_zhs_avz C07_arz C07_zhs_peak C07_arz_shift C07_main.
 Import ListNotations.
 Open Scope R_scope.
 
-(* 1/R: the field of every model at distance d, times d, is the field at distance 1 (also per spectral component of the generated formulas) *)
-Theorem inv_distance :
-  (forall times E d psi n t0, d <> 0 ->
+(* 1/R: the field of every model at distance d, times d, is the field at distance 1 (also per spectral component of the generated formulas);
+   [even_in_angle] the field depends on the viewing angle only through |psi|; the generated ZHS amplitude does not read the signed angle;
+   [joint_shift] shifting the time grid and the shower time together changes nothing *)
+Theorem scaling_invariances :
+  ((forall times E d psi n t0, d <> 0 ->
   map (fun v => v * d) (zhs_values times E d psi n t0) = zhs_values times E 1 psi n t0) /\
   (forall times emE hadE emf hadf d psi n t0, d <> 0 ->
   map (fun v => v * d) (avz_values times emE hadE emf hadf d psi n t0) = avz_values times emE hadE emf hadf 1 psi n t0) /\
@@ -41,36 +43,27 @@ Theorem inv_distance :
   (forall E d psi th thc f, d <> 0 ->
   ZHS_e_omega E d psi th thc f * d = ZHS_e_omega E 1 psi th thc f) /\
   (forall E1 E2 emf hadf d th thc f, d <> 0 ->
-  AVZ_tmp E1 E2 emf hadf d th thc f * d = AVZ_tmp E1 E2 emf hadf 1 th thc f).
-Proof. exact C07_inv_distance_all. Qed.
-Print Assumptions inv_distance.
-
-(* the field depends on the viewing angle only through |psi|; the generated ZHS amplitude does not read the signed angle *)
-Theorem even_in_angle :
-  (forall times E d psi n t0, zhs_values times E d (- psi) n t0 = zhs_values times E d psi n t0) /\
+  AVZ_tmp E1 E2 emf hadf d th thc f * d = AVZ_tmp E1 E2 emf hadf 1 th thc f)) /\
+  ((forall times E d psi n t0, zhs_values times E d (- psi) n t0 = zhs_values times E d psi n t0) /\
   (forall times emE hadE emf hadf d psi n t0,
   avz_values times emE hadE emf hadf d (- psi) n t0 = avz_values times emE hadE emf hadf d psi n t0) /\
   (forall times emE hadE d psi n t0,
   arz_values times emE hadE d (- psi) n t0 = arz_values times emE hadE d psi n t0) /\
   (forall E d psi1 psi2 th thc f,
-  ZHS_e_omega E d psi1 th thc f = ZHS_e_omega E d psi2 th thc f).
-Proof. exact C07_even_in_angle_all. Qed.
-Print Assumptions even_in_angle.
-
-(* shifting the time grid and the shower time together changes nothing *)
-Theorem joint_shift :
-  (forall times E d psi n t0 s, (2 <= length times)%nat ->
+  ZHS_e_omega E d psi1 th thc f = ZHS_e_omega E d psi2 th thc f)) /\
+  ((forall times E d psi n t0 s, (2 <= length times)%nat ->
   zhs_values (map (fun t => t + s) times) E d psi n (t0 + s) = zhs_values times E d psi n t0) /\
   (forall times emE hadE emf hadf d psi n t0 s, (2 <= length times)%nat ->
   avz_values (map (fun t => t + s) times) emE hadE emf hadf d psi n (t0 + s) = avz_values times emE hadE emf hadf d psi n t0) /\
   (forall times emE hadE d psi n t0 s, (2 <= length times)%nat ->
-  arz_values (map (fun t => t + s) times) emE hadE d psi n (t0 + s) = arz_values times emE hadE d psi n t0).
-Proof. exact C07_joint_shift_all. Qed.
-Print Assumptions joint_shift.
+  arz_values (map (fun t => t + s) times) emE hadE d psi n (t0 + s) = arz_values times emE hadE d psi n t0)).
+Proof. exact C07_scaling_invariances_top. Qed.
+Print Assumptions scaling_invariances.
 
 (* ZHS: the phase factor exp(-i w m dt) is an index shift by m (DFT shift theorem, proved termwise on the cosine-sum form of the inverse transform); for the samples that stay inside the window, when neither call takes the zero exit (pulse more than N/2 samples outside the window);
-   AVZ: unconditional (the zero exit agrees with the placement formula) *)
-Theorem zhs_avz_whole_sample_shift_partial :
+   AVZ: unconditional (the zero exit agrees with the placement formula);
+   ZHS: the zero exit is taken exactly when the shower time is >= L + L/2 + 1 samples after or >= L - L/2 + 1 samples before times[0]; the sample function is 2N-periodic; outside the zero exit EVERY sample of the shifted call (also those entering / leaving the window) is the sample function of the unshifted call at index j - m *)
+Theorem zhs_avz_whole_sample_shift :
   ((forall E d psi n N dt tau (m j : Z), (0 < N)%Z -> dt <> 0 ->
   zhs_sample E d psi n N dt (tau + IZR m * dt) j = zhs_sample E d psi n N dt tau (j - m)) /\
   (forall times E d psi n t0 (m : Z) (j : nat),
@@ -83,11 +76,22 @@ Theorem zhs_avz_whole_sample_shift_partial :
   ((forall times emE hadE emf hadf d psi n t0 (m : Z) (j : nat),
   second_time times - first_time times <> 0 -> (j < length times)%nat -> (0 <= Z.of_nat j - m < ZL times)%Z ->
   nth j (avz_values times emE hadE emf hadf d psi n (t0 + IZR m * (second_time times - first_time times))) 0
-  = nth (Z.to_nat (Z.of_nat j - m)) (avz_values times emE hadE emf hadf d psi n t0) 0)).
-Proof. exact C07_zhs_avz_whole_sample_shift_partial_merged. Qed.
-Print Assumptions zhs_avz_whole_sample_shift_partial.
+  = nth (Z.to_nat (Z.of_nat j - m)) (avz_values times emE hadE emf hadf d psi n t0) 0)) /\
+  (forall a b L t0, (1 <= L)%Z ->
+  (ZHS_zeroed a b L t0 = true <-> (IZR (L + L / 2 + 1) <= (t0 - a) / (b - a) \/ (t0 - a) / (b - a) <= IZR (L / 2 - L - 1)))) /\
+  (forall E d psi n N dt tau (j : Z), (0 < N)%Z ->
+  zhs_sample E d psi n N dt tau (j + 2 * N) = zhs_sample E d psi n N dt tau j) /\
+  (forall times E d psi n t0 (m : Z) (j : nat),
+  second_time times - first_time times <> 0 -> E <> 0 ->
+  ZHS_zeroed (first_time times) (second_time times) (ZL times) (t0 + IZR m * (second_time times - first_time times)) = false ->
+  (j < length times)%nat ->
+  nth j (zhs_values times E d psi n (t0 + IZR m * (second_time times - first_time times))) 0
+  = zhs_sample E d psi n (ZL times) (second_time times - first_time times) (t0 - first_time times) (Z.of_nat j - m)).
+Proof. exact C07_zhs_avz_shift_full. Qed.
+Print Assumptions zhs_avz_whole_sample_shift.
 
-(* ARZ: convolution branch, exact when int() truncates n_shift consistently in the two calls (last hypothesis before the index ranges; otherwise the +-10 ns RAC window moves by one lattice point, a relative effect of about 1e-5); on-cone branch on a uniform grid *)
+(* ARZ: convolution branch, exact when int() truncates n_shift consistently in the two calls (last hypothesis before the index ranges; otherwise the +-10 ns RAC window moves by one lattice point, a relative effect of about 1e-5); on-cone branch on a uniform grid;
+   int() truncation commutes with an integer translation exactly when both arguments lie on the same side of zero (or the argument is an integer); hence n_shift is consistent when t0 and t0 + m dt lie on the same side of times[0] + 10 ns, and then the convolution-branch shift holds with concrete hypotheses only (increasing grid, theta in [0,pi], n >= 1, E <> 0, E <> E_crit, off the cone, pulse not outside, profile not empty). Not covered: t0 and t0 + m dt straddling times[0] + 10 ns with a non-integer argument (the RAC window then moves by one lattice point) *)
 Theorem arz_whole_sample_shift_partial :
   (forall (profile rac : R -> R -> R) times E th d n t0 (m : Z) (j : nat),
   let a := first_time times in let b := second_time times in let L := ZL times in
@@ -109,8 +113,25 @@ Theorem arz_whole_sample_shift_partial :
   (forall i, (i < length times)%nat -> nth i times 0 = first_time times + INR i * (second_time times - first_time times)) ->
   ARZ_ss_oncone a b L E th n t0 = true ->
   (j < length times)%nat -> (0 <= Z.of_nat j - m < ZL times)%Z ->
+  nth j (shower_signal profile rac times E th d n t0') 0 = nth (Z.to_nat (Z.of_nat j - m)) (shower_signal profile rac times E th d n t0) 0) /\
+  (forall x (k : Z), Rtrunc (x - IZR k) = (Rtrunc x - k)%Z <->
+  ((0 <= x /\ 0 <= x - IZR k) \/ (x <= 0 /\ x - IZR k <= 0) \/ x = IZR (Rfloor_Z x))) /\
+  (forall a b L E th n t0 (m : Z), a < b -> ARZ_ss_z_to_t a b L E th n t0 <> 0 ->
+  (t0 <= a + 10e-9 /\ t0 + IZR m * (b - a) <= a + 10e-9) \/ (a + 10e-9 <= t0 /\ a + 10e-9 <= t0 + IZR m * (b - a)) ->
+  ARZ_ss_n_shift a b L E th n (t0 + IZR m * (b - a)) = (ARZ_ss_n_shift a b L E th n t0 - m * ARZ_ss_dt_divider a b L E th n t0)%Z) /\
+  (forall (profile rac : R -> R -> R) times E th d n t0 (m : Z) (j : nat),
+  let a := first_time times in let b := second_time times in let L := ZL times in
+  let t0' := t0 + IZR m * (b - a) in
+  (1 <= length times)%nat -> a < b -> 0 <= th <= PI -> 1 <= n ->
+  E <> 0 -> ARZ_max_length_default E <> 0 ->
+  ARZ_ss_oncone a b L E th n t0 = false ->
+  ARZ_ss_outside a b L E th n t0 = false -> ARZ_ss_outside a b L E th n t0' = false ->
+  (all_zero (arz_Q profile (ARZ_ss_n_Q a b L E th n t0) (ARZ_ss_n_Q_negative a b L E th n t0) (ARZ_ss_dz a b L E th n t0) (ARZ_ss_z_to_t a b L E th n t0) E)
+     && (0 <? zlen (arz_Q profile (ARZ_ss_n_Q a b L E th n t0) (ARZ_ss_n_Q_negative a b L E th n t0) (ARZ_ss_dz a b L E th n t0) (ARZ_ss_z_to_t a b L E th n t0) E))%Z) = false ->
+  ((t0 <= a + 10e-9 /\ t0' <= a + 10e-9) \/ (a + 10e-9 <= t0 /\ a + 10e-9 <= t0')) ->
+  (j < length times)%nat -> (0 <= Z.of_nat j - m < ZL times)%Z ->
   nth j (shower_signal profile rac times E th d n t0') 0 = nth (Z.to_nat (Z.of_nat j - m)) (shower_signal profile rac times E th d n t0) 0).
-Proof. exact C07_arz_whole_sample_shift_partial_all. Qed.
+Proof. exact C07_arz_shift_full. Qed.
 Print Assumptions arz_whole_sample_shift_partial.
 
 (* ARZ: in every branch (zero energy, on-cone, pulse outside, empty profile, the four slicing / zero-padding cases, decimation, diff) the result has len(times) entries; the size premises hold on every increasing grid for angles in [0,pi], n >= 1, E <> E_crit *)
@@ -151,16 +172,10 @@ Theorem arz_placement :
 Proof. exact C07_arz_placement_merged. Qed.
 Print Assumptions arz_placement.
 
-(* zero shower energy: an all-zero field of the right length *)
-Theorem zero_energy :
-  (forall times d psi n t0, zhs_values times 0 d psi n t0 = repeat 0 (length times)) /\
-  (forall times emf hadf d psi n t0, avz_values times 0 0 emf hadf d psi n t0 = repeat 0 (length times)) /\
-  (forall times d psi n t0, arz_values times 0 0 d psi n t0 = repeat 0 (length times)).
-Proof. exact C07_zero_energy_all. Qed.
-Print Assumptions zero_energy.
-
-(* ZHS: every spectral component falls (strictly for E > 0, f <> 0) with |theta - theta_c|;
-   AVZ: the em contribution is K sin(theta) exp(-ln2 ((theta-theta_c)/dThetaEM)^2); the Gaussian factor falls with |theta-theta_c|; the amplitude grows towards the cone on the inner side and falls on the outer side beyond theta_c + sigma^2 cot(theta_c)/(2 ln 2) -- the sin(theta) factor displaces the maximum by at most that amount *)
+(* zero shower energy: an all-zero field of the right length;
+   [finiteness] ZHS: every spectral component falls (strictly for E > 0, f <> 0) with |theta - theta_c|;
+   AVZ: the em contribution is K sin(theta) exp(-ln2 ((theta-theta_c)/dThetaEM)^2); the Gaussian factor falls with |theta-theta_c|; the amplitude grows towards the cone on the inner side and falls on the outer side beyond theta_c + sigma^2 cot(theta_c)/(2 ln 2) -- the sin(theta) factor displaces the maximum by at most that amount;
+   ZHS time domain: with the shower time on a sample (t0 - times[0] = k0 dt) that sample equals the sum of the spectral amplitudes / (2N dt), no sample at any shower time exceeds it, and it falls (strictly for E > 0) with | |psi| - theta_c |: the largest sample of the pulse seen further from the cone never exceeds the peak seen nearer to it *)
 Theorem cone_factor_monotone :
   ((forall E d psi th1 th2 thc f, 0 <= E -> 0 < d ->
   Rabs (th1 - thc) <= Rabs (th2 - thc) -> ZHS_e_omega E d psi th2 thc f <= ZHS_e_omega E d psi th1 thc f) /\
@@ -176,8 +191,16 @@ Theorem cone_factor_monotone :
   K * sin th1 * avz_gauss th1 thc sigma <= K * sin th2 * avz_gauss th2 thc sigma) /\
   (forall thc sigma th1 th2, sigma <> 0 ->
   0 < thc -> thc < PI -> thc + sigma ^ 2 * (cos thc / sin thc) / (2 * ln 2) < th1 -> thc <= th1 -> th1 < th2 -> th2 < PI ->
-  sin th2 * avz_gauss th2 thc sigma < sin th1 * avz_gauss th1 thc sigma)).
-Proof. exact C07_cone_factor_monotone_merged. Qed.
+  sin th2 * avz_gauss th2 thc sigma < sin th1 * avz_gauss th1 thc sigma)) /\
+  (forall E d psi n N dt (k0 : Z), (0 < N)%Z -> dt <> 0 ->
+  zhs_sample E d psi n N dt (IZR k0 * dt) k0 = zhs_sample E d psi n N dt 0 0) /\
+  (forall E d psi1 psi2 n N dt, 0 < E -> 0 < d -> 0 < dt -> (0 < N)%Z ->
+  Rabs (Rabs psi1 - ZHS_theta_c n) < Rabs (Rabs psi2 - ZHS_theta_c n) ->
+  zhs_sample E d psi2 n N dt 0 0 < zhs_sample E d psi1 n N dt 0 0) /\
+  (forall E d psi1 psi2 n N dt tau (j k0 : Z), 0 <= E -> 0 < d -> 0 < dt -> (0 < N)%Z ->
+  Rabs (Rabs psi1 - ZHS_theta_c n) <= Rabs (Rabs psi2 - ZHS_theta_c n) ->
+  Rabs (zhs_sample E d psi2 n N dt tau j) <= zhs_sample E d psi1 n N dt (IZR k0 * dt) k0).
+Proof. exact C07_cone_full. Qed.
 Print Assumptions cone_factor_monotone.
 
 (* ZHS is linear in the shower energy (any angle); the AVZ em part and the ARZ on-cone field are proportional to the em energy on the cone *)
@@ -195,15 +218,18 @@ Print Assumptions em_on_cone_linear_in_energy.
 
 (* denominators and array sizes: ZHS denominators non-zero; AVZ cone width positive; ARZ z_to_t <> 0 off the cone, dt_divider >= 1, n_RAC >= 2, n_Q >= 1000;
    non-vacuity of the hypotheses *)
-Theorem finiteness :
-  ((forall d f, 0 < d -> 1 + 0.4 * (Rabs f / 500e6) ^ 2 <> 0 /\ d <> 0 /\ radians 2.4 <> 0) /\
+Theorem zero_energy_and_finiteness :
+  ((forall times d psi n t0, zhs_values times 0 d psi n t0 = repeat 0 (length times)) /\
+  (forall times emf hadf d psi n t0, avz_values times 0 0 emf hadf d psi n t0 = repeat 0 (length times)) /\
+  (forall times d psi n t0, arz_values times 0 0 d psi n t0 = repeat 0 (length times))) /\
+  (((forall d f, 0 < d -> 1 + 0.4 * (Rabs f / 500e6) ^ 2 <> 0 /\ d <> 0 /\ radians 2.4 <> 0) /\
   (forall E hadE emf hadf d th thc f, 0 <= E -> 0 < f -> 0 < AVZ_dThetaEM E hadE emf hadf d th thc f) /\
   (forall a b L E th n t0, 0 <= th <= PI -> 1 <= n ->
   ARZ_ss_oncone a b L E th n t0 = false -> ARZ_ss_z_to_t a b L E th n t0 <> 0) /\
   (forall a b L E th n t0, a < b -> ARZ_ss_z_to_t a b L E th n t0 <> 0 -> ARZ_max_length_default E <> 0 ->
   (1 <= ARZ_ss_dt_divider a b L E th n t0)%Z /\ (2 <= ARZ_ss_n_RAC a b L E th n t0)%Z /\ (1000 <= ARZ_ss_n_Q a b L E th n t0)%Z)) /\
   ((exists a b L E th n t0, a < b /\ ARZ_ss_z_to_t a b L E th n t0 <> 0) /\
-  (exists E d f th1 th2 thc, 0 < E /\ 0 < d /\ f <> 0 /\ Rabs (th1 - thc) < Rabs (th2 - thc))).
-Proof. exact C07_finiteness_merged. Qed.
-Print Assumptions finiteness.
+  (exists E d f th1 th2 thc, 0 < E /\ 0 < d /\ f <> 0 /\ Rabs (th1 - thc) < Rabs (th2 - thc)))).
+Proof. exact C07_zero_energy_and_finiteness_top. Qed.
+Print Assumptions zero_energy_and_finiteness.
 
